@@ -36,6 +36,7 @@ import (
 	"encoding/binary"
 	"encoding/hex"
 	"fmt"
+	"math"
 	"os"
 	"reflect"
 	"strings"
@@ -54,12 +55,12 @@ import (
 
 const (
 	H0   = 18823000 + 9
-	S1   = 31
-	S2   = 32
-	D1   = 41
-	D2   = 42
-	DB   = 43
-	DU   = 44
+	S1   = uint64(1)
+	S2   = uint64(math.MaxUint64)
+	D1   = uint64(41)
+	D2   = uint64(42)
+	DB   = uint64(0) // registered and blacklisted: chain id 0 (its blacklist record holds the value 0)
+	DU   = uint64(44)
 	nVal = 4
 )
 
